@@ -111,6 +111,12 @@ package upstream
 //@ prop C19 C17
 //@ ensures[nonnil:upstream-has-its-reverse-proxy] result != nil && typeis(result, "*httpUpstreamProxy") && as(result, "*httpUpstreamProxy").handler == ret(newReverseProxy)
 //@     && ret(newReverseProxy) != nil
+//@ prop C17
+//@ at call newReverseProxy assert[requests-start-at-the-upstreams-root] (arg(newReverseProxy, 0).Scheme != "unix" ==> arg(newReverseProxy, 0).Path == "")
+//@     && arg(newReverseProxy, 0).Scheme == old(u.Scheme) && arg(newReverseProxy, 0).Host == old(u.Host) && arg(newReverseProxy, 1) == upstream
+//@ at call newWebSocketReverseProxy assert[websocket-requests-go-to-the-very-same-target] arg(newWebSocketReverseProxy, 0) == arg(newReverseProxy, 0)
+//@     && arg(newWebSocketReverseProxy, 1) == upstream.InsecureSkipTLSVerify
+//@ at call newWebSocketReverseProxy assert[websocket-proxy-only-unless-switched-off] upstream.ProxyWebSockets == nil || deref(upstream.ProxyWebSockets)
 //@ prop C19
 //@ scan[nonnil:http-upstreams-allocated-by-the-constructor] alloc-of pkg/upstream.httpUpstreamProxy pkg/upstream.newHTTPUpstreamProxy
 //@ scan[nonnil:multi-upstream-allocated-by-the-constructor] alloc-of pkg/upstream.multiUpstreamProxy pkg/upstream.NewProxy
